@@ -2015,10 +2015,6 @@ func CalculateGroupLagWithStartOffsets(
 				LeaderEpoch: -1,
 			}
 			perr := pend.Err
-			lag := int64(-1)
-			if perr == nil {
-				lag = pend.Offset
-			}
 			pstart := ListedOffset{
 				Topic:     t,
 				Partition: p,
@@ -2027,12 +2023,16 @@ func CalculateGroupLagWithStartOffsets(
 			if tstart != nil {
 				if pstartActual, ok := tstart[p]; ok {
 					pstart = pstartActual
-					if pstart.Err == nil {
-						lag = pend.Offset - pstart.Offset
-						if lag < 0 {
-							lag = 0
-						}
-					}
+				}
+			}
+			lag := int64(-1)
+			if perr == nil {
+				lag = pend.Offset
+				if pstart.Err == nil {
+					lag = pend.Offset - pstart.Offset
+				}
+				if lag < 0 {
+					lag = 0
 				}
 			}
 			lt[p] = GroupMemberLag{
